@@ -89,6 +89,8 @@ struct Run {
         if (!b) { ob(what, ~0ULL); return; }
         ob(what, mix((uint64_t)(b->bsize ? b->bptr - cur_buf : 0), b->bsize));
     }
+    Bytes last_string;  // content of the last string value the script read (string_equals argument)
+    bool have_last_string() const { return !last_string.empty(); }
     FILE *echo = nullptr;  // describe mode: print every call before it is made (a sanitizer abort still shows the history)
     void note(const char *op, const std::string &extra = "") {
         if (keep_log) log.push_back(extra.empty() ? op : std::string(op) + "(" + extra + ")");
@@ -225,7 +227,8 @@ struct Run {
         case A_GET_INT: { note(kOp[op]); int64_t v = binson_parser_get_integer(p); ob("int", (uint64_t)v); if (was_latched) { get_after_latch++; if (v != 0 && is09()) fail(kOp[op], "not-neutral-after-error", "get_integer != 0 while an error is set"); } break; }
         case A_GET_BOOL: { note(kOp[op]); bool v = binson_parser_get_boolean(p); ob("bool", v); if (was_latched) { get_after_latch++; if (v && is09()) fail(kOp[op], "not-neutral-after-error", "get_boolean != false while an error is set"); } break; }
         case A_GET_DBL: { note(kOp[op]); double v = binson_parser_get_double(p); uint64_t u; memcpy(&u, &v, 8); ob("dbl", u); if (was_latched) { get_after_latch++; if (u != 0 && is09()) fail(kOp[op], "not-neutral-after-error", "get_double != +0.0 while an error is set"); } break; }
-        case A_GET_STR: { note(kOp[op]); bbuf *b = binson_parser_get_string_bbuf(p); check_span(kOp[op], b); ob_span("str", b); if (was_latched) { get_after_latch++; if (b && is09()) fail(kOp[op], "not-neutral-after-error", "get_string_bbuf != NULL while an error is set"); } break; }
+        case A_GET_STR: { note(kOp[op]); bbuf *b = binson_parser_get_string_bbuf(p); check_span(kOp[op], b); ob_span("str", b);
+            if (b && b->bsize <= 64 && span_ok(b)) last_string.assign(b->bptr, b->bptr + b->bsize); if (was_latched) { get_after_latch++; if (b && is09()) fail(kOp[op], "not-neutral-after-error", "get_string_bbuf != NULL while an error is set"); } break; }
         case A_GET_BYTES: { note(kOp[op]); bbuf *b = binson_parser_get_bytes_bbuf(p); check_span(kOp[op], b); ob_span("bytes", b); if (was_latched) { get_after_latch++; if (b && is09()) fail(kOp[op], "not-neutral-after-error", "get_bytes_bbuf != NULL while an error is set"); } break; }
         case A_GET_RAW: {
             note(kOp[op]);
@@ -243,9 +246,12 @@ struct Run {
             break;
         }
         case A_STR_EQ: {
-            unsigned l = s.u8() % 5;
+            uint8_t sel = s.u8();
+            unsigned l = sel % 5;
+            bool remembered = (sel & 0x80) && have_last_string();
+            if (remembered) l = (unsigned)last_string.size();
             Block nb(l + 1);
-            for (unsigned i = 0; i < l; i++) { uint8_t c = s.u8(); nb.p[i] = c ? c : 'a'; }
+            for (unsigned i = 0; i < l; i++) { uint8_t c = remembered ? last_string[i] : s.u8(); nb.p[i] = c ? c : 'a'; }
             nb.p[l] = 0;
             note(kOp[op]);
             bool v = binson_parser_string_equals(p, (const char *)nb.p); ob("streq", v);
